@@ -962,3 +962,40 @@ Proof.
   - exists false, 1, false, ex_trace. vm_compute. reflexivity.
   - simpl. repeat split; discriminate.
 Qed.
+
+(* ------------------------------------------------------------ statements as used in props/C08.v *)
+Theorem no_lost_wakeup_reach : forall s tr s',
+  treach s -> flag s = true -> owed s = false ->
+  lrun tr s = Some s' -> pc s' <> TSleep.
+Proof. intros s tr s' H. apply settled_never_sleeps. apply tinv_reach. exact H. Qed.
+
+Theorem no_handles_no_ticks_reach : forall tr s s',
+  treach s -> strong s = 0 -> tarc s = false -> lrun tr s = Some s' ->
+  nticks s' = nticks s /\ iters s' <= iters s + 1.
+Proof. intros tr s s' H Hs Ht Hr. eapply no_handles_no_ticks; eauto. apply tinv_reach. exact H. Qed.
+
+Theorem join_terminates_reach :
+  (forall os s, treach s -> flag s = true -> owed s = false ->
+     barl s <> ByEnv -> stopl s <> ByEnv ->
+     pc (run_ticker os exit_bound s) = TDone) /\
+  (forall s sl u tu, lookup sl (jslot s) = Some u -> nth_error (threads s) u = Some tu ->
+     done tu = true -> enabled s (Join sl) = true).
+Proof.
+  split.
+  - intros os s H. apply join_terminates. apply tinv_reach. exact H.
+  - exact join_enabled_when_done.
+Qed.
+
+Theorem manual_tick_thm :
+  (forall n tk, Nat.iter n (tick_inner false) tk = tk) /\
+  (forall tk, tick_inner true tk = sat_add64 tk 1).
+Proof. split; [exact manual_ticks_noop|exact manual_tick_ticks]. Qed.
+
+Theorem ticks_once_thm :
+  (forall os s, pc s = TUpgrade -> strong s <> 0 -> fin s = false -> barl s = Free -> stopl s = Free ->
+     let s' := run_ticker os 7 s in
+     pc s' = TCheckStop /\ nticks s' = S (nticks s) /\ iters s' = S (iters s) /\
+     barl s' = Free /\ tarc s' = false) /\
+  (forall tr s s', lrun tr s = Some s' ->
+     nticks s' + tickcap (pc s') + iters s <= nticks s + tickcap (pc s) + iters s').
+Proof. split; [exact iteration_ticks_once|exact ticks_le_iters]. Qed.
